@@ -302,6 +302,8 @@ pub fn values() -> Vec<&'static str> {
 fn base_values() -> Vec<&'static str> {
     vec![
         "", "localtime", ":", ":UTC", ":/abs/f", "/abs/f", "UTC", "UTC0", " UTC0 ", "\tUTC0\n", "EST5EDT", "EST5EDT,M3.2.0,M11.1.0", "rel/f", "localtime ", ":localtime", " :UTC", "::UTC", "bad string", " localtime", "localtime\n", ": UTC", "/", ":/", "<+03>-3", " ", "\n", "EST5 ", ":EST5", "Europe/Paris", "../etc/passwd", ":/etc/localtime", "/etc/localtime",
+        // absolute values that lie inside a configured directory (read as they are: no other directory is consulted)
+        "/d1/f", ":/d1/f", "/d2/UTC0", ":/d2/Europe/Paris", "/usr/share/zoneinfo/UTC", ":/d1/", "/d1",
         // white space inside the value (only leading and trailing white space is insignificant)
         "UTC0 junk", "UTC0\nEST5", "EST5EDT,M3.2.0,M11.1.0\t/etc/passwd", "UTC 0", "a b", "\tUTC0 x\n", "EST5", ":UTC0 junk",
     ]
@@ -323,6 +325,11 @@ pub fn dir_lists(thorough: bool) -> Vec<Vec<&'static str>> {
     }
     rec_build(&all, &mut vec![], &mut out);
     out.push(vec!["/d1", "/d1"]);
+    // directory strings of other shapes: empty, root, trailing slash, doubled slash, relative (the candidate is always
+    // "<dir>/<name>", nothing is normalised)
+    for l in [vec![""], vec!["/"], vec!["/d1/"], vec!["/d1/", "/d2"], vec!["rel"], vec!["", "/d1"], vec!["/d1//", "/d1"], vec!["/d2", "/"]] {
+        out.push(l);
+    }
     out.push(vec!["/usr/share/zoneinfo", "/share/zoneinfo", "/etc/zoneinfo"]);
     out
 }
